@@ -213,7 +213,9 @@ fn check(rep: &Reporter, cnt: &Counters, st: &(AtomicU64, AtomicU64, AtomicU64),
                     if msg.trim().is_empty() {
                         viol("diagnostic", "non-empty diagnostic".into(), msg);
                     } else if let Some(p) = pos {
-                        if !use_pos.contains(&p) && p >= code_start && !use_pos.is_empty() && msg.contains("Macro") {
+                        // an error that comes out of a macro expansion (at any nesting depth) is reported at
+                        // a use site in the file, never at an offset inside the expanded text
+                        if !use_pos.contains(&p) && !use_pos.is_empty() && msg.contains("Macro") {
                             viol("position", format!("diagnostic at a macro use site {:?}", use_pos), format!("{}: {}", p, msg));
                         }
                     }
